@@ -208,6 +208,18 @@ add(
     "3/C01",
 )
 
+add(
+    "C14",
+    "Data are produced by the real simulate / simulate_from_clp / simulate_full_model from symbolic generating clps and "
+    "symbolic matrices, then the real fitting pipeline is evaluated on those symbolic data: for every linear problem handed "
+    "to the solver, data = fit matrix x (generating clp / dataset scale) entry by entry (the data lie in the column space with "
+    "exactly the generating coefficients), covering megacomplex scales, shared labels, index dependence, full models and "
+    "linked datasets; with C01 this gives zero objective and recovered clps at the generating parameters.",
+    COMMON_NOTE + "NOT decided: return to the optimum from perturbed start values (convergence of an iterative float "
+    "optimiser) and reproducibility of the noise seed (compiled RNG); builtin kinetic matrices are the subject of C04/C05.",
+    "3/C14",
+)
+
 ALL = [f"C{i:02d}" for i in range(1, 21)]
 
 
